@@ -12,7 +12,9 @@ use crate::jaeger::{fmt_record, rand_record_realistic};
 use crate::rng::{hex_bytes, Rng};
 
 // ---------------------------------------------------------------- Datadog
-fn read_request(stream: &mut std::net::TcpStream) -> Option<(String, Vec<u8>)> {
+// the request is recorded BEFORE the response is written: the reporter returns as soon as it has
+// the response, and the harness reads the capture right after that
+fn read_request(stream: &mut std::net::TcpStream, cap: &Mutex<Vec<(String, Vec<u8>)>>) -> Option<()> {
     stream.set_read_timeout(Some(std::time::Duration::from_secs(5))).ok()?;
     let mut buf: Vec<u8> = vec![];
     let mut tmp = [0u8; 65536];
@@ -39,8 +41,9 @@ fn read_request(stream: &mut std::net::TcpStream) -> Option<(String, Vec<u8>)> {
                 .unwrap_or(0);
             if buf.len() >= he + cl {
                 let body = buf[he..he + cl].to_vec();
+                cap.lock().unwrap().push((head, body));
                 let _ = stream.write_all(b"HTTP/1.1 200 OK\r\nContent-Length: 2\r\nConnection: close\r\n\r\n{}");
-                return Some((head, body));
+                return Some(());
             }
         }
     }
@@ -55,9 +58,7 @@ pub fn datadog(seed: u64, n: usize, out: &mut dyn std::io::Write) {
     std::thread::spawn(move || {
         for conn in listener.incoming() {
             if let Ok(mut s) = conn {
-                if let Some(r) = read_request(&mut s) {
-                    cap2.lock().unwrap().push(r);
-                }
+                let _ = read_request(&mut s, &cap2);
             }
         }
     });
